@@ -141,6 +141,29 @@ def undo_renames(facts, baseline):
     return done
 
 
+_OVERRIDES = {}
+
+
+def _sole_body(facts, f):
+    """An unresolved trait-method call runs the trait's provided body for certain only when nobody can have
+    overridden it: no impl in the crate defines that method and the trait cannot be implemented elsewhere (brood's
+    sealed-trait idiom: it lives in a `sealed` module)."""
+    key = id(facts)
+    if key not in _OVERRIDES:
+        ov = set()
+        for imp in facts['impls']:
+            if imp.get('trait'):
+                for it in imp['items']:
+                    if it.get('kind') == 'AssocFn':
+                        ov.add((imp['trait']['path'], it['name']))
+        _OVERRIDES.clear()
+        _OVERRIDES[key] = ov
+    tr = f.get('trait')
+    name = f.get('name') or f['path'].rsplit('::', 1)[-1]
+    sealed = '::sealed::' in (tr or '') or (tr or '').startswith('sealed::')
+    return bool(tr) and sealed and (tr, name) not in _OVERRIDES[key]
+
+
 def undo_param_renames(facts, baseline):
     """Parameter names are not part of a function's interface: a reference function whose signature is unchanged
     gets its reference parameter names back (a renamed or destructured parameter would otherwise hide the anchor
@@ -311,7 +334,7 @@ def inline_unknown(facts, baseline=None):
                     cdp = tgt.get('dp')
                     # an unresolved call of a trait method names the trait's item: a provided body there is only a
                     # default that any impl may override, never what the call does
-                    if t['f'].get('trait') and 'res' not in t['f']:
+                    if t['f'].get('trait') and 'res' not in t['f'] and not _sole_body(facts, t['f']):
                         cdp = None
                     if cdp in unknown and cdp != dp and cdp in fns and len(mir['blocks']) + len(fns[cdp]['mir']['blocks']) < MAX_BLOCKS:
                         inline_call(mir, b, copy.deepcopy(fns[cdp]['mir']), fns[cdp].get('generics'))
